@@ -516,6 +516,7 @@ func genLifecycle(root *pkgSrc) {
 	}
 	b.WriteString("]\n")
 	lifecycleServerFacts(root, &b)
+	lifecycleAnswerFacts(root, &b)
 	b.WriteString("end Mcp.Gen\n")
 	writeIfChanged("LifecycleFacts.lean", b.String())
 }
@@ -1174,4 +1175,149 @@ func lifecycleCapSources(root *pkgSrc, b *strings.Builder) {
 		fmt.Fprintf(b, "{ field := %s, method := %s, plain := %s } /- %s.%s -/", leanText(a.field), leanText(a.method), leanBool(a.plain), a.field, a.method)
 	}
 	fmt.Fprintf(b, "], otherCalls := %d, params := %d, usesParam := %s }\n", other, params, leanBool(passes))
+}
+
+// ---------- client side: how an answer to `initialize` is recognised as a refusal
+
+// mapKeyTest: `_, <x> := <m>["<key>"]; <x>` as Init/Cond of an if statement -> key
+func mapKeyTest(is *ast.IfStmt) (string, bool) {
+	as, ok := is.Init.(*ast.AssignStmt)
+	if !ok || len(as.Lhs) != 2 || len(as.Rhs) != 1 {
+		return "", false
+	}
+	okVar, ok := as.Lhs[1].(*ast.Ident)
+	cond, ok2 := is.Cond.(*ast.Ident)
+	if !ok || !ok2 || okVar.Name != cond.Name {
+		return "", false
+	}
+	if blank, ok := as.Lhs[0].(*ast.Ident); !ok || blank.Name != "_" {
+		return "", false
+	}
+	ix, ok := as.Rhs[0].(*ast.IndexExpr)
+	if !ok {
+		return "", false
+	}
+	lit, ok := ix.Index.(*ast.BasicLit)
+	if !ok || lit.Kind != token.STRING {
+		return "", false
+	}
+	k, err := strconv.Unquote(lit.Value)
+	return k, err == nil
+}
+
+// soleReturnIdent: the block is exactly `return <Ident>, nil` -> Ident
+func soleReturnIdent(b *ast.BlockStmt) (string, bool) {
+	if b == nil || len(b.List) != 1 {
+		return "", false
+	}
+	r, ok := b.List[0].(*ast.ReturnStmt)
+	if !ok || len(r.Results) != 2 {
+		return "", false
+	}
+	id, ok := r.Results[0].(*ast.Ident)
+	nl, ok2 := r.Results[1].(*ast.Ident)
+	if !ok || !ok2 || nl.Name != "nil" {
+		return "", false
+	}
+	return id.Name, true
+}
+
+func lifecycleAnswerFacts(root *pkgSrc, b *strings.Builder) {
+	// ---- parseJSONRPCMessageType: the if / else-if chain that classifies a message carrying an id
+	type link struct{ key, typ string }
+	var chain []link
+	if fd, _ := root.funcDecl("parseJSONRPCMessageType"); fd != nil && fd.Body != nil {
+		for _, st := range fd.Body.List {
+			is, ok := st.(*ast.IfStmt)
+			if !ok {
+				continue
+			}
+			if k, ok := mapKeyTest(is); !ok || k != "id" || len(is.Body.List) == 0 {
+				continue
+			}
+			cur, _ := is.Body.List[0].(*ast.IfStmt)
+			for cur != nil {
+				k, ok1 := mapKeyTest(cur)
+				t, ok2 := soleReturnIdent(cur.Body)
+				if !ok1 || !ok2 {
+					chain = append(chain, link{"?", "?"}) // a link that is not understood: rejected
+					break
+				}
+				chain = append(chain, link{k, t})
+				switch e := cur.Else.(type) {
+				case nil:
+					cur = nil
+				case *ast.IfStmt:
+					cur = e
+				default:
+					chain = append(chain, link{"?", "?"})
+					cur = nil
+				}
+			}
+			break
+		}
+	}
+	b.WriteString("/-- `parseJSONRPCMessageType` (the stdio client transport classifies every line it reads with it): for a message that carries an `id`, the\n    if / else-if chain of member tests in order, each with the type it returns ([] / \"?\" = not recognised). -/\n")
+	b.WriteString("def messageTypeChain : List (Mcp.Str.Text × Mcp.Str.Text) := [")
+	for i, l := range chain {
+		if i > 0 {
+			b.WriteString(", ")
+		}
+		fmt.Fprintf(b, "(%s, %s) /- %s -> %s -/", leanText(l.key), leanText(l.typ), l.key, l.typ)
+	}
+	b.WriteString("]\n")
+
+	// ---- isErrorResponse looks at the `error` member only; both Initialize functions consult it, as a top-level statement whose
+	//      every path returns an error, before they parse the result
+	errOnly := false
+	if fd, _ := root.funcDecl("isErrorResponse"); fd != nil && fd.Body != nil {
+		txt := strings.Join(strings.Fields(root.text(fd.Body)), "")
+		errOnly = strings.Contains(txt, `["error"]`) && !strings.Contains(txt, `["result"]`) && !strings.Contains(txt, `"result"`)
+	}
+	b.WriteString("/-- Per client type: `Initialize` tests `isErrorResponse(answer)` in a top-level `if` all of whose paths return an error, before the statement\n    that parses the result; and (same for all) `isErrorResponse` looks at the `error` member only. -/\n")
+	b.WriteString("def refusalCheckedFirst : List (Mcp.Str.Text × Bool) := [")
+	for i, recv := range []string{"Client", "StdioClient"} {
+		good := false
+		if fd, _ := root.funcDecl(recv + ".Initialize"); fd != nil && fd.Body != nil && errOnly {
+			checkIdx, parseIdx := -1, -1
+			for j, st := range fd.Body.List {
+				if is, ok := st.(*ast.IfStmt); ok && checkIdx < 0 && is.Init == nil && is.Else == nil {
+					if call, ok := is.Cond.(*ast.CallExpr); ok {
+						if id, ok := call.Fun.(*ast.Ident); ok && id.Name == "isErrorResponse" {
+							// every return inside returns a non-nil error, and the block ends in a return
+							allErr := len(is.Body.List) > 0
+							if _, ok := is.Body.List[len(is.Body.List)-1].(*ast.ReturnStmt); !ok {
+								allErr = false
+							}
+							ast.Inspect(is.Body, func(x ast.Node) bool {
+								if _, ok := x.(*ast.FuncLit); ok {
+									return false
+								}
+								if r, ok := x.(*ast.ReturnStmt); ok {
+									if len(r.Results) == 0 {
+										allErr = false
+									} else if id, ok := r.Results[len(r.Results)-1].(*ast.Ident); ok && id.Name == "nil" {
+										allErr = false
+									}
+								}
+								return true
+							})
+							if allErr {
+								checkIdx = j
+							}
+						}
+					}
+				}
+				if parseIdx < 0 && strings.Contains(root.text(st), "parseInitializeResultFromJSON(") {
+					parseIdx = j
+				}
+			}
+			good = checkIdx >= 0 && parseIdx > checkIdx
+		}
+		if i > 0 {
+			b.WriteString(", ")
+		}
+		fmt.Fprintf(b, "(%s, %s) /- %s -/", leanText(recv), leanBool(good), recv)
+	}
+	b.WriteString("]\n")
 }
